@@ -98,7 +98,9 @@ def run(ctx):
         x = torch.randn(shape).to(dt)
         with torch.no_grad():
             if aq is not None:
-                with Calibration(streamline=False):
+                # with streamlining, modules feeding incompatible functions (gelu, …) get their activations disabled:
+                # the saved model then mixes modules with and without quantized activations
+                with Calibration(streamline=rng.random() < 0.5):
                     model(x)
             if frozen:
                 freeze(model)
